@@ -519,6 +519,10 @@ void sx127x_lora_handle_interrupt(sx127x *device) {
   //always last because if message was sent or received,
   //then no need to change freq
   if ((value & SX127x_IRQ_FLAG_FHSSCHANGECHANNEL) != 0) {
+    if (device->frequencies == NULL) {
+      // hopping was configured on the chip by a previous session, no list registered on this handle
+      return;
+    }
     if (device->current_frequency >= device->frequencies_length) {
       device->current_frequency = 0;
     }
